@@ -148,9 +148,9 @@ def _str_lit(s):
 
 
 IDENT = r"[A-Za-z_][A-Za-z0-9_]*"
-KEY_COMPONENT = re.compile(r"^[&*]?\s*(%s)\s*(?:\.\s*(?:to_owned|clone|to_string)\s*\(\s*\))?$" % IDENT)
+KEY_COMPONENT = re.compile(r"^[&*]?\s*(%s)\s*(?:\.\s*(?:to_owned|clone|to_string|into)\s*\(\s*\))?$" % IDENT)
 # a field of a parameter copied into the key: `p.field`, `p.field.clone()`; recorded as "p.field"
-KEY_FIELD = re.compile(r"^[&*]?\s*(%s)\s*\.\s*(%s)\s*(?:\.\s*(?:to_owned|clone|to_string)\s*\(\s*\))?$" % (IDENT, IDENT))
+KEY_FIELD = re.compile(r"^[&*]?\s*(%s)\s*\.\s*(%s)\s*(?:\.\s*(?:to_owned|clone|to_string|into)\s*\(\s*\))?$" % (IDENT, IDENT))
 
 # Shapes the extractors do not recognise.  They are NOT raised as machinery failures: they are written
 # into the regenerated tables (`*_unrecognised`), where the obligation "nothing unrecognised" breaks, so
@@ -172,12 +172,15 @@ def _key_idents(convert, where):
         c = re.sub(r"\s+", " ", c.strip())
         m = KEY_COMPONENT.match(c)
         f = KEY_FIELD.match(c)
-        if m and not (f and f.group(2) not in ("to_owned", "clone", "to_string")):
+        if m and not (f and f.group(2) not in ("to_owned", "clone", "to_string", "into")):
             ids.append(m.group(1))
         elif f:
             ids.append("%s.%s" % (f.group(1), f.group(2)))
         else:
-            UNRECOGNISED["cache"].append("%s: key component `%s` is neither a copy of a parameter nor of one of its fields" % (where, c))
+            # e.g. `cache_key(input)`, `input.trim().to_owned()`, `input.to_lowercase()`: a function of the parameter that
+            # need not be injective; such a component does not cover the parameter (keys_cover_inputs breaks too)
+            UNRECOGNISED["cache"].append("%s: key component `%s` is not an identity copy (to_owned/to_string/clone/into) of a parameter "
+                                         "or of one of its fields: a computed key need not be injective" % (where, c))
             ids.append("?" + c)
     return ids
 
